@@ -20,7 +20,7 @@ RULE = (
     "the reference set (NotImplementedError exactly when the reference raises); whenever both calls return its size "
     "equals neighbors(a, FORWARD|ANY, same handling, same filter).count(b); then unlink(a,b) on a generated pair: "
     "find_links(a,b,.) and find_links(b,a,.) are empty for all settings without raising and every other pair's "
-    "answers are unchanged.  A few worlds are scaled up: one vertex gets 65 / 70 further links to fresh leaves, optionally with a self-loop among them (then the pairs among the original vertices and four of the leaves are examined).  Non-trivial = some pair is joined by >= 2 links of different kind/direction, or a "
+    "answers are unchanged.  find_links(a, b) with the optional arguments omitted is compared with the documented defaults spelled out; every set received is scribbled on after reading.  A few worlds are scaled up: one vertex gets 65 / 70 further links to fresh leaves, optionally with a self-loop among them (then the pairs among the original vertices and four of the leaves are examined).  Non-trivial = some pair is joined by >= 2 links of different kind/direction, or a "
     "self-loop pair exists, or the filter splits a pair's links; distinct = distinct case value."
 )
 ASSUMPTIONS = [
